@@ -1005,25 +1005,201 @@ Proof.
     unfold access in Hacc. unfold resolves. destruct (clookup y ce); [exact Hacc | exact (conj (proj1 Hacc) (proj2 (proj2 Hacc)))].
 Qed.
 
+(* ---- closures that capture the running named nested function (the repaired emitter) ---------------- *)
+
+Lemma Forall2_imp_in : forall {A B} (P Q : A -> B -> Prop) l l',
+  (forall x y, In x l -> P x y -> Q x y) -> Forall2 P l l' -> Forall2 Q l l'.
+Proof.
+  intros A B P Q l l' H HF. induction HF; constructor.
+  - apply H; [left; reflexivity | assumption].
+  - apply IHHF. intros x0 y0 Hin. apply H. right. exact Hin.
+Qed.
+
+(* the index of the running function, when its name can be captured at all *)
+Lemma self_idx : forall prog m (env : Eval.env) ce sc L stk, prog_ok prog -> env_match m env ce sc L stk ->
+  exists ks, forall y, self_is (fc_self fc) y = true -> clookup y ce = None -> Compile4.fidx FT y = Z.of_nat ks.
+Proof.
+  intros prog m env ce sc L stk Hpo Hem.
+  destruct (fc_self fc) as [f|] eqn:Ef.
+  - destruct (clookup f ce) eqn:Ecl.
+    + exists 0%nat. intros y Hy Hc. cbn [self_is] in Hy. apply N.eqb_eq in Hy. subst. congruence.
+    + destruct (proj1 (proj2 (proj2 (proj2 (proj2 (proj2 Hem))))) f Ef Ecl)
+        as (cf & kself & sfd & scenv & _ & _ & Hname & Hk & _).
+      exists (nstd + kself)%nat. intros y Hy _. cbn [self_is] in Hy. apply N.eqb_eq in Hy. subst y.
+      rewrite <- Hname. apply (po_named _ Hpo kself KNamed sfd Hk).
+  - exists 0%nat. intros y Hy. discriminate Hy.
+Qed.
+
+(* what a capture yields: the image of the cell of a name in scope, or — for the running function itself — the
+   copy made at heap address hl *)
+Definition cap_rel (m : morph) (env : Eval.env) (ce : cenv) (hl : nat) (y : ident) (a : nat) : Prop :=
+  exists c, lookup y env = Some c /\
+    (vrel m c a \/ (clookup y ce = None /\ self_is (fc_self fc) y = true /\ a = hl)) /\
+    (mem_id y IV = true -> In c (mi m)).
+
+Lemma env_addrs_s : forall (m : morph) (env : Eval.env) ce sc L stk l hl,
+  env_match m env ce sc L stk ->
+  forallb (fun y => mem_id y sc || (cp && self_is (fc_self fc) y)) l = true ->
+  exists addrs, Forall2 (resolves_s fc L ce stk gl hl) l addrs /\ Forall2 (cap_rel m env ce hl) l addrs.
+Proof.
+  intros m env ce sc L stk l hl Hem. induction l as [|y t IH]; intros H.
+  - exists []. split; constructor.
+  - simpl in H. apply andb_true_iff in H. destruct H as [Hy Ht].
+    destruct (IH Ht) as (addrs & H1 & H2).
+    destruct (mem_id y sc) eqn:Eys.
+    + destruct (proj1 Hem y Eys) as (c & a & Hl & Hm & Hacc).
+      exists (a :: addrs). split; constructor; auto.
+      * unfold access in Hacc. unfold resolves_s. destruct (clookup y ce); [exact Hacc|].
+        destruct Hacc as (Hs & _ & Hn). rewrite Hs. exact Hn.
+      * exists c. split; [exact Hl|]. split; [left; exact Hm|]. intros Hyi.
+        exact (proj2 (proj2 (proj2 (proj2 (proj2 (proj2 (proj2 Hem)))))) y c Eys Hyi Hl).
+    + cbn [orb] in Hy. apply andb_true_iff in Hy. destruct Hy as [_ Hsy].
+      assert (Hcl : clookup y ce = None).
+      { destruct (clookup y ce) as [i|] eqn:E; [|reflexivity].
+        destruct Hem as (_ & _ & _ & _ & Hce & _). destruct (Hce y i E) as [_ Hx]. congruence. }
+      assert (Hfs : fc_self fc = Some y).
+      { unfold self_is in Hsy. destruct (fc_self fc) as [g|]; [|discriminate]. apply N.eqb_eq in Hsy. congruence. }
+      destruct (proj1 (proj2 (proj2 (proj2 (proj2 (proj2 Hem))))) y Hfs Hcl)
+        as (cf & kself & sfd & scenv & Hlf & _ & _ & _ & _ & _ & _ & Hniv).
+      exists (hl :: addrs). split; constructor; auto.
+      * unfold resolves_s. rewrite Hcl, Hsy. reflexivity.
+      * exists cf. split; [exact Hlf|]. split; [right; auto|]. intros Hyi. congruence.
+Qed.
+
+(* the copy of the running function a closure captures, if it does *)
+Lemma self_copy : forall prog m st h (env : Eval.env) ce sc L stk ks (l : list ident),
+  prog_ok prog -> MS m st h -> env_match m env ce sc L stk ->
+  (forall y, self_is (fc_self fc) y = true -> clookup y ce = None -> Compile4.fidx FT y = Z.of_nat ks) ->
+  forallb (fun y => mem_id y sc || (cp && self_is (fc_self fc) y)) l = true ->
+  exists m1, MS m1 st (h ++ if selfcap fc ce l then [HFun (r_gp fr) (faddr ks)] else []) /\ ext m m1 /\
+    (forall y c, In y l -> clookup y ce = None -> self_is (fc_self fc) y = true -> lookup y env = Some c ->
+                 In (length h, c) (mc m1)).
+Proof.
+  intros prog m st h env ce sc L stk ks l Hpo HMS Hem Hks Hfv.
+  destruct (selfcap fc ce l) eqn:Hs.
+  2:{ exists m. rewrite app_nil_r. split; [exact HMS|]. split; [apply ext_refl|].
+      intros y c Hin Hcl Hsy _. exfalso.
+      assert (Hx : selfcap fc ce l = true).
+      { unfold selfcap. apply existsb_exists. exists y. split; [exact Hin|]. rewrite Hcl. exact Hsy. }
+      congruence. }
+  unfold selfcap in Hs. apply existsb_exists in Hs. destruct Hs as (y & Hin & Hy).
+  destruct (clookup y ce) eqn:Hcl; [discriminate|].
+  assert (Hfs : fc_self fc = Some y).
+  { unfold self_is in Hy. destruct (fc_self fc) as [g|]; [|discriminate]. apply N.eqb_eq in Hy. congruence. }
+  assert (Hysc : mem_id y sc = false).
+  { destruct (mem_id y sc) eqn:E; [|reflexivity]. destruct (proj1 Hem y E) as (c & a & _ & _ & Hacc).
+    unfold access in Hacc. rewrite Hcl in Hacc. destruct Hacc as (Hx & _). congruence. }
+  assert (Hcp : cp = true).
+  { rewrite forallb_forall in Hfv. specialize (Hfv y Hin). rewrite Hysc in Hfv. cbn [orb] in Hfv.
+    apply andb_true_iff in Hfv. exact (proj1 Hfv). }
+  destruct (proj1 (proj2 (proj2 (proj2 (proj2 (proj2 Hem))))) y Hfs Hcl)
+    as (cf & kself & sfd & scenv & Hlf & Hrec & Hname & Hk & Hgv & HFv & Hnf & _).
+  pose proof (po_named _ Hpo kself KNamed sfd Hk) as Hfi. rewrite Hname in Hfi.
+  assert (Eks : ks = (nstd + kself)%nat) by (pose proof (Hks y Hy Hcl) as Hx; rewrite Hfi in Hx; lia).
+  subst ks.
+  assert (Hcell : nth_error (cells st) cf = Some (CFun sfd scenv)).
+  { destruct (ms_fcl _ _ _ HMS _ _ _ Hrec) as [Hx | (Hx & _)]; [exact Hx | congruence]. }
+  assert (Hfr : CompileCorrect4Rel.fun_rel (g_all G) (x_ftab X) TL FS cp m sfd scenv (r_gp fr) (faddr (nstd + kself))).
+  { split; [exists kself, KNamed; split; [discriminate | split; [exact Hk | reflexivity]]|].
+    split; [exact Hnf|]. exists gl. split; [exact Hgv | exact HFv]. }
+  destruct (MS_copy m st h cf sfd scenv (r_gp fr) (faddr (nstd + kself)) [] HMS Hcp Hcell
+              (or_intror (conj Hfr Hrec))) as (HMS' & _ & Hext').
+  cbn [length app] in HMS', Hext'. rewrite Nat.add_0_r in HMS', Hext'.
+  eexists. split; [exact HMS'|]. split; [exact Hext'|].
+  intros y' c _ Hcl' Hsy' Hl'. cbn [mc]. apply in_or_app. right. left.
+  assert (y' = y). { unfold self_is in Hsy'. rewrite Hfs in Hsy'. apply N.eqb_eq in Hsy'. exact Hsy'. }
+  subst y'. rewrite Hlf in Hl'. inversion Hl'. reflexivity.
+Qed.
+
+Lemma cap_rel_vrel : forall m m1 (env : Eval.env) ce hl l addrs, ext m m1 ->
+  (forall y c, In y l -> clookup y ce = None -> self_is (fc_self fc) y = true -> lookup y env = Some c ->
+               In (hl, c) (mc m1)) ->
+  Forall2 (cap_rel m env ce hl) l addrs ->
+  Forall2 (fun y a => exists c, lookup y env = Some c /\ vrel m1 c a /\ (mem_id y IV = true -> In c (mi m1))) l addrs.
+Proof.
+  intros m m1 env ce hl l addrs Hext Hcp HF. eapply Forall2_imp_in; [|exact HF].
+  intros y a Hin (c & Y1 & Y2 & Y3). exists c. split; [exact Y1|]. split.
+  - destruct Y2 as [Y2 | (E1 & E2 & ->)]; [eapply vrel_ext; eauto|]. right. apply (Hcp y c Hin E1 E2 Y1).
+  - intros Yi. eapply ext_mi; eauto.
+Qed.
+
+(* the running function's closure, when a closure captures it *)
+Lemma self_data : forall prog m (st : state) (env : Eval.env) ce sc L stk ks y,
+  prog_ok prog ->
+  (forall c fd cenv, In (c, (fd, cenv)) (mf m) -> nth_error (cells st) c = Some (CFun fd cenv)) ->
+  env_match m env ce sc L stk ->
+  (forall y, self_is (fc_self fc) y = true -> clookup y ce = None -> Compile4.fidx FT y = Z.of_nat ks) ->
+  clookup y ce = None -> self_is (fc_self fc) y = true ->
+  exists cf sfd scenv, lookup y env = Some cf /\ nth_error (cells st) cf = Some (CFun sfd scenv) /\
+    CompileCorrect4Rel.fun_rel (g_all G) (x_ftab X) TL FS cp m sfd scenv (r_gp fr) (faddr ks) /\
+    In (cf, (sfd, scenv)) (mf m).
+Proof.
+  intros prog m st env ce sc L stk ks y Hpo Hfcl Hem Hks Hcl Hy.
+  assert (Hfs : fc_self fc = Some y).
+  { unfold self_is in Hy. destruct (fc_self fc) as [g|]; [|discriminate]. apply N.eqb_eq in Hy. congruence. }
+  destruct (proj1 (proj2 (proj2 (proj2 (proj2 (proj2 Hem))))) y Hfs Hcl)
+    as (cf & kself & sfd & scenv & Hlf & Hrec & Hname & Hk & Hgv & HFv & Hnf & _).
+  pose proof (po_named _ Hpo kself KNamed sfd Hk) as Hfi. rewrite Hname in Hfi.
+  assert (Eks : ks = (nstd + kself)%nat) by (pose proof (Hks y Hy Hcl) as Hx; rewrite Hfi in Hx; lia).
+  subst ks. exists cf, sfd, scenv. split; [exact Hlf|]. split; [exact (Hfcl _ _ _ Hrec)|].
+  split; [|exact Hrec].
+  split; [exists kself, KNamed; split; [discriminate | split; [exact Hk | reflexivity]]|].
+  split; [exact Hnf|]. exists gl. split; [exact Hgv | exact HFv].
+Qed.
+
+Lemma Forall2_conj : forall {A B} (P Q : A -> B -> Prop) l l', Forall2 P l l' -> Forall2 Q l l' ->
+  Forall2 (fun x y => P x y /\ Q x y) l l'.
+Proof.
+  intros A B P Q l l' H1. induction H1; intros H2; inversion H2; subst; constructor; auto.
+Qed.
+
+Lemma rrP_length : forall (P : nat -> ident -> nat -> Prop) ce rest hl addrss,
+  rrP TL fc P ce hl rest addrss -> length addrss = length rest.
+Proof.
+  intros P ce rest. induction rest as [|f t IH]; intros hl addrss H; destruct addrss as [|ad at_]; simpl in *;
+    try contradiction; auto.
+  f_equal. eapply IH. exact (proj2 H).
+Qed.
+
+(* the captures of every function of a run *)
+Lemma env_addrs_run : forall (m : morph) (env : Eval.env) ce sc L stk fds hl,
+  env_match m env ce sc L stk ->
+  (forall f, In f fds -> forallb (fun y => mem_id y sc || (cp && self_is (fc_self fc) y)) (fvs_fd TL f) = true) ->
+  exists addrss, rrP TL fc (fun hl y a => resolves_s fc L ce stk gl hl y a /\ cap_rel m env ce hl y a) ce hl fds addrss.
+Proof.
+  intros m env ce sc L stk fds. induction fds as [|f t IH]; intros hl Hem Hfv.
+  - exists []. exact I.
+  - destruct (env_addrs_s m env ce sc L stk _ hl Hem (Hfv f (or_introl eq_refl))) as (ad & A & B).
+    destruct (IH (hl + grow TL fc ce f)%nat Hem (fun g Hg => Hfv g (or_intror Hg))) as (at_ & C).
+    exists (ad :: at_). split; [apply Forall2_conj; assumption | exact C].
+Qed.
+
 Lemma case_ELambda : forall k fd, expr_case_at (S k) (ELambda fd).
 Proof.
   intros k fd env st r st' He sc HF prog L ce ip stk h o m Hc HMS Hout Hem.
-  rewrite eval_ELambda in He. simpl in HF.
+  rewrite eval_ELambda in He. cbn [Compile4.in_F] in HF.
   apply andb_true_iff in HF; destruct HF as [HF Hfv]. apply andb_true_iff in HF; destruct HF as [_ Hkn].
   change (compile_expr fc L ce (ELambda fd)) with (closure_code FT TL fc L ce fd) in *.
   destruct (known_nth _ _ _ Hkn) as (kk & Hkk). pose proof Hc as (Hcc & Hpo).
   pose proof (po_named _ Hpo kk KLam fd Hkk) as Hfi.
-  destruct (env_addrs m env ce sc L stk _ Hem Hfv) as (addrs & HR & HL).
-  pose proof (CompileCorrect4Base.closure_run X prog FT TL fc ce stk gl h o fr L fd addrs ip (nstd + kk)
-                (gp_vec _ _ _ _ _ _ _ _ HMS Hem) HR Hfi Hcc) as R.
+  destruct (self_idx prog m env ce sc L stk Hpo Hem) as (ks & Hks).
+  destruct (env_addrs_s m env ce sc L stk _ (length h) Hem Hfv) as (addrs & HR & HL).
+  pose proof (CompileCorrect4Base.closure_run_s X prog FT TL fc ce stk gl h o fr L fd addrs ip (nstd + kk) ks
+                (fvs_fd_NoDup TL fd) Hks (gp_vec _ _ _ _ _ _ _ _ HMS Hem) HR Hfi Hcc) as R.
+  cbv zeta in R.
+  destruct (self_copy prog m st h env ce sc L stk ks _ Hpo HMS Hem Hks Hfv) as (m1 & HMS1 & Hext1 & Hcp1).
+  set (cps := if selfcap fc ce (fvs_fd TL fd) then [HFun (r_gp fr) (faddr ks)] else []) in *.
+  pose proof (cap_rel_vrel m m1 env ce (length h) _ _ Hext1 Hcp1 HL) as HL1.
   unfold fresh in He. destruct (alloc st (CFun fd env)) as [c st1] eqn:Ea. inv He. simpl.
   assert (Hfa : fun_addr fd (faddr (nstd + kk))) by (exists kk, KLam; split; [discriminate | split; [exact Hkk | reflexivity]]).
   assert (Hnn : forall k0, nth_error (g_all G) k0 <> Some (KNamed, fd)).
   { intros k0 Hk0. pose proof (po_named _ Hpo k0 KNamed fd Hk0) as Hx. rewrite Hfi in Hx.
     assert (k0 = kk) by lia. subst k0. congruence. }
-  destruct (MS_closure m st h fd env addrs (faddr (nstd + kk)) c st' HMS Ea Hfa (proj1 (proj2 Hem)) Hnn HL)
+  destruct (MS_closure m1 st (h ++ cps) fd env addrs (faddr (nstd + kk)) c st' HMS1 Ea Hfa (proj1 (proj2 Hem)) Hnn HL1)
     as (HMS' & Hm' & Hext & Hout').
-  eapply (post_ok_intro _ _ _ _ _ _ _ _ (S (length h)) R); simpl; [reflexivity | reflexivity | exact Hm' | exact HMS' | exact Hext | congruence | reflexivity].
+  rewrite app_length in HMS', Hm', Hext. rewrite <- app_assoc in HMS'.
+  eapply (post_ok_intro _ _ _ _ _ _ _ _ (S (length h + length cps)) R); simpl;
+    [reflexivity | reflexivity | exact Hm' | exact HMS' | eapply ext_trans; [exact Hext1 | exact Hext] | congruence | reflexivity].
 Qed.
 
 (* ---- closures: a run of sibling functions ------------------------------------------------------- *)
@@ -1096,54 +1272,100 @@ Proof.
   (* the evaluator *)
   set (e' := run_env fds env st) in *. set (st1 := run_state fds env st) in *.
   assert (Hlen := ms_len _ _ _ HMS).
-  (* the extended environment, for any recorded vectors *)
-  assert (Hem' : forall nv nf, CompileCorrect4Rel.env_match G IV fc (r_gp fr) gl
-                   {| mm := mm m ++ map MA (seq (length h) kk); mv := mv m ++ nv; mf := mf m ++ nf; mc := mc m; mi := mi m |} e' ce'
+  (* the extended environment, for any recorded vectors and copies *)
+  assert (Hem' : forall nv nf ncp, CompileCorrect4Rel.env_match G IV fc (r_gp fr) gl
+                   {| mm := mm m ++ map MA (seq (length h) kk); mv := mv m ++ nv; mf := mf m ++ nf; mc := mc m ++ ncp; mi := mi m |} e' ce'
                    (map fd_name fds ++ sc) L' Sk).
-  { intros nv nf. apply (env_match_run G IV fc (r_gp fr) gl m env ce sc L stk fds st h nv nf Hem Hnd Hnew Hlen). }
+  { intros nv nf ncp. apply (env_match_run G IV fc (r_gp fr) gl m env ce sc L stk fds st h nv nf ncp Hem Hnd Hnew Hlen). }
   (* what every function of the run captures *)
-  set (m0 := {| mm := mm m ++ map MA (seq (length h) kk); mv := mv m ++ []; mf := mf m ++ []; mc := mc m; mi := mi m |}).
-  destruct (Forall2_build (fun f addrs =>
-              Forall2 (resolves fc L' ce' Sk gl) (fvs_fd TL f) addrs /\
-              Forall2 (fun y a => exists c, lookup y e' = Some c /\ vrel m0 c a /\ (mem_id y IV = true -> In c (mi m0))) (fvs_fd TL f) addrs) fds)
-    as (addrss & HA).
-  { intros f Hf. rewrite forallb_forall in Hfv. specialize (Hfv f Hf). apply andb_true_iff in Hfv. destruct Hfv as [_ Hfv].
-    destruct (env_addrs m0 e' ce' _ L' Sk _ (Hem' [] []) Hfv) as (addrs & A & B). exists addrs. auto. }
+  set (m0 := {| mm := mm m ++ map MA (seq (length h) kk); mv := mv m ++ []; mf := mf m ++ []; mc := mc m ++ []; mi := mi m |}).
+  assert (Hfv' : forall f, In f fds ->
+            forallb (fun y => mem_id y (map fd_name fds ++ sc) || (cp && self_is (fc_self fc) y)) (fvs_fd TL f) = true).
+  { intros f Hf. rewrite forallb_forall in Hfv. specialize (Hfv f Hf). apply andb_true_iff in Hfv. exact (proj2 Hfv). }
+  destruct (self_idx prog m0 e' ce' _ L' Sk Hpo (Hem' [] [] [])) as (kself & Hks).
+  destruct (env_addrs_run m0 e' ce' _ L' Sk fds (length h + kk)%nat (Hem' [] [] []) Hfv') as (addrss & HA).
   destruct (Forall2_build (fun f (kidx : nat) => nth_error (g_all G) kidx = Some (KNamed, f)) fds) as (ks0 & HK0).
   { intros f Hf. rewrite forallb_forall in Hfv. specialize (Hfv f Hf). apply andb_true_iff in Hfv. destruct Hfv as [Hkn _].
     apply known_nth in Hkn. exact Hkn. }
   set (ks := map (fun i => (nstd + i)%nat) ks0).
   assert (HK : Forall2 (fun f kidx => Compile4.fidx FT (fd_name f) = Z.of_nat kidx) fds ks).
   { unfold ks. clear -HK0 Hpo. induction HK0; simpl; constructor; auto. eapply (po_named _ Hpo); eauto. }
-  assert (HA1 : Forall2 (fun f addrs => Forall2 (resolves fc L' ce' Sk gl) (fvs_fd TL f) addrs) fds addrss).
-  { eapply Forall2_imp; [|exact HA]. intros ? ? [? ?]; auto. }
-  destruct (CompileCorrect4Base.sibling_run X prog FT TL fc ce' gl stk h o fr L' fds addrss ks ip
-              (gp_vec _ _ _ _ _ _ _ _ HMS Hem) HA1 HK Hc1) as (H' & Hst & Hlow & Hfill).
-  fold kk Sk rc in Hst.
-  destruct (CompileCorrect4Base.filled_vecs X addrss ks H' _ _ Hfill) as (vs & Hlvs & Hvs).
+  assert (HA1 : rr TL fc L' ce' Sk gl (length h + kk) fds addrss).
+  { unfold rr. eapply rrP_imp; [|exact HA]. intros ? ? ? [? ?]; assumption. }
+  destruct (CompileCorrect4Base.sibling_run_s X prog FT TL fc ce' gl stk h o fr L' fds addrss ks ip kself Hks
+              (fun f _ => fvs_fd_NoDup TL f) (gp_vec _ _ _ _ _ _ _ _ HMS Hem) HA1 HK Hc1) as (H' & Hst & Hlow & Hfill).
+  fold kk Sk rc in Hst. fold kk in Hfill.
+  destruct (CompileCorrect4Base.filled_vecs X addrss ks H' _ _ (filled_s_filled X TL fc _ _ _ _ _ _ _ _ _ _ Hfill))
+    as (vs & Hlvs & Hvs).
+  (* the cell of the running function's own closure *)
+  set (cf := match fc_self fc with
+             | Some f => match lookup f e' with Some c => c | None => 0%nat end
+             | None => 0%nat end).
+  set (ncp := cps_of TL fc cf ce' (length h + kk) fds).
   set (nv := combine vs addrss).
   set (nf := combine (seq (length (cells st)) kk) (map (fun f => (f, e')) fds)).
-  set (m' := {| mm := mm m ++ map MA (seq (length h) kk); mv := mv m ++ nv; mf := mf m ++ nf; mc := mc m; mi := mi m |}).
+  set (m' := {| mm := mm m ++ map MA (seq (length h) kk); mv := mv m ++ nv; mf := mf m ++ nf; mc := mc m ++ ncp; mi := mi m |}).
   assert (Hext : ext m m') by ext_solve.
-  assert (Hl1 : length addrss = kk) by (unfold kk; symmetry; clear -HA; induction HA; simpl; auto).
+  assert (Hext0' : ext m0 m').
+  { unfold ext, m0, m'. cbn [mm mv mf mc mi]. rewrite !app_nil_r. repeat split; first [exists []; now rewrite app_nil_r | eexists; reflexivity]. }
+  assert (Hfcl0 : cp = true -> forall c fd0 cenv, In (c, (fd0, cenv)) (mf m0) -> nth_error (cells st) c = Some (CFun fd0 cenv)).
+  { intros Hcp c fd0 cenv Hin. unfold m0 in Hin. cbn [mf] in Hin. rewrite app_nil_r in Hin.
+    destruct (ms_fcl _ _ _ HMS _ _ _ Hin) as [Hx | (Hx & _)]; [exact Hx | congruence]. }
   assert (Hl2 : length ks = kk) by (unfold kk; symmetry; clear -HK; induction HK; simpl; auto).
+  assert (Hl1 : length addrss = kk) by (unfold kk; eapply rrP_length; exact HA).
+  (* a function of the run that captures the running function: the copies are in the fragment *)
+  assert (Hwit : forall f, In f fds -> selfcap fc ce' (fvs_fd TL f) = true ->
+            exists y, In y (fvs_fd TL f) /\ clookup y ce' = None /\ self_is (fc_self fc) y = true /\ cp = true).
+  { intros f Hf Hs. unfold selfcap in Hs. apply existsb_exists in Hs. destruct Hs as (y & Hin & Hy).
+    destruct (clookup y ce') eqn:Hcl; [discriminate|]. exists y. split; [exact Hin|]. split; [exact Hcl|]. split; [exact Hy|].
+    specialize (Hfv' f Hf). rewrite forallb_forall in Hfv'. specialize (Hfv' y Hin).
+    destruct (mem_id y (map fd_name fds ++ sc)) eqn:E.
+    - exfalso. destruct (proj1 (Hem' [] [] []) y E) as (c & a & _ & _ & Hacc).
+      unfold access in Hacc. rewrite Hcl in Hacc. destruct Hacc as (Hx & _). congruence.
+    - cbn [orb] in Hfv'. apply andb_true_iff in Hfv'. exact (proj1 Hfv'). }
+  exists H', m'. split; [exact Hst|]. split; [|split; [exact (Hem' nv nf ncp) | split; [exact Hext | exact HFr]]].
   (* the states are related again *)
-  assert (HMS' : MS m' st1 H').
-  { unfold st1, run_state. fold e'.
-    apply (MS_run m st h H' fds env nv HMS Hnd Hlow).
-    - intros v l Hin. destruct (In_combine_nth _ _ _ _ Hin) as (j & Hv & Ha).
-      destruct (nth_error ks j) as [kj|] eqn:Ek; [|apply nth_error_None in Ek; assert (j < length addrss)%nat by (apply nth_error_Some; congruence); lia].
-      destruct (Hvs j l kj Ha Ek) as (v' & A & _ & C). congruence.
-    - exact (proj1 (proj2 (Hem' [] []))).
-    - intros j f Hj.
-      destruct (Forall2_nth_l _ _ _ _ _ HA Hj) as (ad & Had & _ & HL).
-      destruct (Forall2_nth_l _ _ _ _ _ HK0 Hj) as (k0 & Hk0 & Hg0).
-      assert (Hkj : nth_error ks j = Some (nstd + k0)%nat) by (unfold ks; rewrite nth_error_map, Hk0; reflexivity).
-      destruct (Hvs j ad _ Had Hkj) as (v & A & B & C).
-      exists v, ad, (faddr (nstd + k0)). split; [exact B|]. split; [unfold nv; eapply nth_error_In, nth_error_combine; eauto|].
-      split; [exists k0, KNamed; split; [discriminate | split; [exact Hg0 | reflexivity]]|].
-      eapply Forall2_imp; [|exact HL]. intros y a (c & Y1 & Y2). exists c. split; [exact Y1 | exact Y2]. }
-  exists H', m'. split; [exact Hst|]. split; [exact HMS'|]. split; [exact (Hem' nv nf)|]. split; [exact Hext | exact HFr].
+  unfold st1, run_state. fold e'.
+  apply (MS_run m st h H' fds env nv ncp HMS Hnd Hlow).
+  - intros v l Hin. destruct (In_combine_nth _ _ _ _ Hin) as (j & Hv & Ha).
+    destruct (nth_error ks j) as [kj|] eqn:Ek; [|apply nth_error_None in Ek; assert (j < length addrss)%nat by (apply nth_error_Some; congruence); lia].
+    destruct (Hvs j l kj Ha Ek) as (v' & A & _ & C). congruence.
+  - exact (proj1 (proj2 (Hem' [] [] []))).
+  - intros j f Hj.
+    destruct (run_facts X TL fc _ ce' (r_gp fr) kself fds addrss ks H' _ _ _ HA Hfill j f Hj)
+      as (ad & kj & v0 & Had & Hkj & HPQ & _ & _ & _ & _).
+    destruct (Forall2_nth_l _ _ _ _ _ HK0 Hj) as (k0 & Hk0 & Hg0).
+    assert (Hkj' : nth_error ks j = Some (nstd + k0)%nat) by (unfold ks; rewrite nth_error_map, Hk0; reflexivity).
+    destruct (Hvs j ad _ Had Hkj') as (v & A & B & C).
+    exists v, ad, (faddr (nstd + k0)). split; [exact B|]. split; [unfold nv; eapply nth_error_In, nth_error_combine; eauto|].
+    split; [exists k0, KNamed; split; [discriminate | split; [exact Hg0 | reflexivity]]|].
+    apply (cap_rel_vrel m0 m' e' ce' (hl_at TL fc ce' (length h + kk) fds j) (fvs_fd TL f) ad Hext0').
+    + intros y c Hin Hcl Hsy Hl.
+      assert (Hsc : selfcap fc ce' (fvs_fd TL f) = true).
+      { unfold selfcap. apply existsb_exists. exists y. split; [exact Hin|]. rewrite Hcl. exact Hsy. }
+      assert (Ec : c = cf).
+      { unfold cf. unfold self_is in Hsy. destruct (fc_self fc) as [g|]; [|discriminate]. apply N.eqb_eq in Hsy. subst g.
+        rewrite Hl. reflexivity. }
+      subst c. unfold m'. cbn [mc]. apply in_or_app. right. unfold ncp. apply (cps_of_in TL fc cf ce' fds _ j f Hj Hsc).
+    + eapply Forall2_imp; [|exact HPQ]. intros ? ? [? ?]; assumption.
+  - intros Hcpf. unfold ncp. apply cps_of_nil. intros f Hf. destruct (selfcap fc ce' (fvs_fd TL f)) eqn:E; [|reflexivity].
+    destruct (Hwit f Hf E) as (y & _ & _ & _ & Hx). congruence.
+  - intros a c Hin. unfold ncp in Hin. destruct (cps_of_inv TL fc cf ce' fds _ a c Hin) as (-> & j & f & Hj & Hsc & ->).
+    destruct (Hwit f (nth_error_In _ _ Hj) Hsc) as (y & Hyin & Hcl & Hsy & Hcp).
+    destruct (self_data prog m0 st e' ce' _ L' Sk kself y Hpo (Hfcl0 Hcp) (Hem' [] [] []) Hks Hcl Hsy)
+      as (cf' & sfd & scenv & Hlf & Hcell & Hfr & Hrec).
+    assert (Ecf : cf' = cf).
+    { unfold cf. unfold self_is in Hsy. destruct (fc_self fc) as [g|]; [|discriminate]. apply N.eqb_eq in Hsy. subst g.
+      rewrite Hlf. reflexivity. }
+    subst cf'.
+    destruct (run_facts X TL fc _ ce' (r_gp fr) kself fds addrss ks H' _ _ _ HA Hfill j f Hj)
+      as (ad & kj & v0 & _ & _ & _ & _ & _ & _ & Hcopy).
+    destruct (Hcopy Hsc) as [Hh _].
+    exists sfd, scenv, (r_gp fr), (faddr kself). split.
+    { cbn [cells add_cells]. rewrite nth_error_app1; [exact Hcell | apply nth_error_Some; congruence]. }
+    split; [exact Hh|]. right. split.
+    + eapply (CompileCorrect4Rel.fun_rel_ext (g_all G) (x_ftab X) TL FS cp); [exact Hext0' | exact Hfr].
+    + eapply ext_fcl; [exact Hext0' | exact Hrec].
 Qed.
 
 Lemma items_run_step : forall k, items_spec k ->
@@ -2201,7 +2423,7 @@ Proof.
   { destruct (clookup g ce) as [i|] eqn:E; [|reflexivity].
     destruct Hem as (_ & _ & _ & _ & Hce & _). destruct (Hce g i E) as [_ Hx]. congruence. }
   destruct (proj1 (proj2 (proj2 (proj2 (proj2 (proj2 Hem))))) g Hfs Hcl)
-    as (cf & kself & sfd & scenv & Hlf & Hrec & Hname & Hk & Hgv & HFv & Hnf).
+    as (cf & kself & sfd & scenv & Hlf & Hrec & Hname & Hk & Hgv & HFv & Hnf & Hniv).
   rewrite eval_EVar in He. unfold lookup_var in He. rewrite Hlf in He. injection He as Er Est. subst r st' o.
   pose proof Hc as (_ & Hpo).
   pose proof (po_named _ Hpo kself KNamed sfd Hk) as Hfi. rewrite Hname in Hfi.
@@ -2478,7 +2700,7 @@ Proof.
   { destruct (clookup g ce) as [i|] eqn:E; [|reflexivity].
     destruct Hem as (_ & _ & _ & _ & Hce & _). destruct (Hce g i E) as [_ Hx]. congruence. }
   destruct (proj1 (proj2 (proj2 (proj2 (proj2 (proj2 Hem))))) g Hfs Hcl)
-    as (cf & kself & sfd & scenv & Hlf & Hrec & Hname & Hk & Hgv & HFv & Hnf).
+    as (cf & kself & sfd & scenv & Hlf & Hrec & Hname & Hk & Hgv & HFv & Hnf & Hniv).
   rewrite eval_ECall in He.
   set (n := Z.of_nat (length args)).
   pose proof Hc as (_ & Hpo).
@@ -2652,6 +2874,7 @@ Proof.
   intros kidx kd fd cenv vec gl cs penv astk m Hk Hok Hnt Hb HF Hg Hact.
   unfold Compile4.func_in_P in Hok. cbn [fst snd] in Hok.
   apply andb_true_iff in Hok; destruct Hok as [Hok _].
+  apply andb_true_iff in Hok; destruct Hok as [Hok Ho6].
   apply andb_true_iff in Hok; destruct Hok as [Hok Hp6].
   apply andb_true_iff in Hok; destruct Hok as [Hok Hpn]. apply andb_true_iff in Hok; destruct Hok as [_ Hown].
   apply negb_true_iff in Hown.
@@ -2684,7 +2907,8 @@ Proof.
     destruct Hact as (Hin & HF2 & Hnf & Hself). destruct (Hself eq_refl) as (cf & Hlc & Hrec).
     destruct (bind_params_not_param _ _ _ (fd_name fd) Hb Hown) as [Hn1 _].
     exists cf, kidx, fd, cenv. split; [rewrite lookup_app, Hn1; exact Hlc|]. split; [exact Hrec|].
-    split; [reflexivity|]. split; [exact Hk|]. split; [exact Hin|]. split; [exact HF2 | exact Hnf].
+    split; [reflexivity|]. split; [exact Hk|]. split; [exact Hin|]. split; [exact HF2|]. split; [exact Hnf|].
+    destruct (mem_id (fd_name fd) IV) eqn:Ei; [|reflexivity]. destruct (at6_iv _ _ Ho6 Ei) as [A B]. rewrite A in B. discriminate B.
   - intros f Hf. unfold ctx_of in Hf. cbn [fc_self] in Hf. destruct kd; try discriminate Hf. inv Hf.
     unfold body_scope. rewrite mem_id_app, Hown. cbn [orb].
     destruct (mem_id (fd_name fd) (fvs_fd TL fd)) eqn:Em; [|reflexivity]. exfalso.
@@ -3535,7 +3759,7 @@ Proof.
   { destruct (clookup (fd_name fd) ce) as [i|] eqn:E; [|reflexivity].
     destruct Hem as (_ & _ & _ & _ & Hce & _). destruct (Hce _ i E) as [_ Hx]. congruence. }
   destruct (proj1 (proj2 (proj2 (proj2 (proj2 (proj2 Hem))))) _ Hfs Hcl)
-    as (cf & kself & sfd & scenv & Hlf & Hrec & Hname & Hks & Hgv & HFv & Hnf).
+    as (cf & kself & sfd & scenv & Hlf & Hrec & Hname & Hks & Hgv & HFv & Hnf & Hniv).
   pose proof (po_named _ Hpo kself KNamed sfd Hks) as Hfi. rewrite Hname in Hfi.
   rewrite eval_ECall in He.
   set (v := Z.of_nat (length args)) in *.
@@ -3658,6 +3882,7 @@ Proof.
   pose proof Hfok as Hfok0.
   unfold Compile4.func_in_P in Hfok0. cbn [fst snd] in Hfok0.
   apply andb_true_iff in Hfok0; destruct Hfok0 as [Hfok0 Hcat].
+  apply andb_true_iff in Hfok0; destruct Hfok0 as [Hfok0 _].
   apply andb_true_iff in Hfok0; destruct Hfok0 as [Hfok0 _].
   apply andb_true_iff in Hfok0; destruct Hfok0 as [Hfok0 _].
   apply andb_true_iff in Hfok0; destruct Hfok0 as [HFb _].
